@@ -70,7 +70,9 @@ pub fn run_session(s: &Session, out: &mut dyn Write) -> usize {
     if s.chunks.is_empty() {
         return n;
     }
-    for chunk in &s.chunks {
+    // the verdict on the empty buffer (prefix of length 0) is a state of every session
+    let empty: Vec<u8> = Vec::new();
+    for chunk in std::iter::once(&empty).chain(s.chunks.iter()) {
         buf.extend_from_slice(chunk);
         let obs = all_entry_points(&buf, true);
         writeln!(out, "{}", json!({"sid": s.sid, "op": "Recv", "c": rl(chunk), "obs": obs})).unwrap();
